@@ -6,7 +6,7 @@ jobs = []
 for pid in ids:
     used = {n[3:] for n in os.listdir("/verif/seeded") if n.startswith(pid)}
     letters = [c for c in "abcdefghijklmnopqrstuvwxyz" if c not in used]
-    for x in ("a", "b"):
+    for x in ("a", "b", "c"):
         d = os.path.join(src, pid, x)
         if os.path.exists(os.path.join(d, "patch.diff")) and os.path.exists(os.path.join(d, "demo.py")) and not os.path.exists(os.path.join(d, "done")):
             jobs.append((d, pid + letters.pop(0), pid))
